@@ -364,6 +364,34 @@ func runC18(c *core.Ctx) {
 	// frees blocked writers is never reached
 	c.Rule("R11", "the sender's recover path releases the flag before closing (shared with C02-R3)", 1)
 	importObligations(c, runC02, "R11", func(o *core.Obligation) bool { return o.Rule == "R3" })
+	// on a queued channel no writer waits for another writer or for the sender: the channel's write lock belongs to the
+	// synchronous branch (a stream write that held it while the sender needs it would make a non-blocking write wait
+	// for the transport)
+	c.Rule("R14", "the channel's write lock is taken only on the synchronous (queue == nil) branch, never by the sender", 2)
+	var wl *types.Var
+	for _, f := range fieldsOfNamed(r.Chan) {
+		if core.NamedIs(f.Type(), "sync", "Mutex") || core.NamedIs(f.Type(), "sync", "RWMutex") {
+			wl = f
+		}
+	}
+	if wl != nil {
+		for _, fn := range p.Funcs {
+			if !e.isChanMethod(fn) {
+				continue
+			}
+			core.AllInstrs(fn, func(in ssa.Instruction) {
+				if _, isDefer := in.(*ssa.Defer); isDefer {
+					return
+				}
+				if !mutexCall(in, wl, "Lock", "RLock") {
+					return
+				}
+				c.Instance("R14")
+				inSender := core.Outermost(fn) == r.Sender
+				c.Check(!inSender && e.syncBranch(in), "R14", "write-lock/"+core.FName(fn), p.InstrPos(in), "taken only where the channel has no queue", "the channel's write lock is taken on a queued channel (or by the sender): a writer can wait behind a stalled transport write although the queue has room")
+			})
+		}
+	}
 	// "returns the context error and transmits nothing": no error return once the packet is in the queue
 	c.Rule("R13", "an enqueued packet is never reported as refused (shared with C01-R2)", 2)
 	importObligations(c, runC01, "R13", func(o *core.Obligation) bool {
